@@ -139,16 +139,16 @@ Proof.
 Qed.
 
 (* ------------------------------------------------------------------ Uri caches *)
-Definition uri_abs_text (u : uri) : bytes := u_front u ++ uri_encode pg_PathChars (uri_path u).
+Definition uri_abs_text (u : uri) : bytes := u_front u ++ uri_encode pg_AbsPathChars (uri_path u).
 Definition caches_ok (u : uri) : Prop :=
-  (u_abspath_cache u = [] \/ u_abspath_cache u = uri_encode pg_PathChars (uri_path u)) /\
+  (u_abspath_cache u = [] \/ u_abspath_cache u = uri_encode pg_AbsPathChars (uri_path u)) /\
   (u_abs_cache u = [] \/ u_abs_cache u = uri_abs_text u).
 
 Lemma nonempty_false (l : bytes) : nonempty l = false -> l = [].
 Proof. destruct l; [reflexivity| discriminate]. Qed.
 
 Lemma uri_absolute_path_ok (u : uri) : caches_ok u ->
-  fst (uri_absolute_path u) = uri_encode pg_PathChars (uri_path u) /\ caches_ok (snd (uri_absolute_path u)) /\
+  fst (uri_absolute_path u) = uri_encode pg_AbsPathChars (uri_path u) /\ caches_ok (snd (uri_absolute_path u)) /\
   u_front (snd (uri_absolute_path u)) = u_front u /\ u_path (snd (uri_absolute_path u)) = u_path u /\
   u_httpx (snd (uri_absolute_path u)) = u_httpx u /\ u_urn (snd (uri_absolute_path u)) = u_urn u /\
   u_abs_cache (snd (uri_absolute_path u)) = u_abs_cache u.
@@ -185,7 +185,7 @@ Proof.
   destruct (nonempty cp) eqn:Ep; cbn [fst snd u_front u_abs_cache u_abspath_cache u_httpx u_urn u_path].
   - destruct (nonempty (fr ++ cp)) eqn:Ev; cbn [fst snd]; [reflexivity|].
     cbn [u_abspath_cache]. rewrite Ep. reflexivity.
-  - set (v := uri_encode pg_PathChars (uri_path (mkUri fr hx urn p ca cp))).
+  - set (v := uri_encode pg_AbsPathChars (uri_path (mkUri fr hx urn p ca cp))).
     destruct (nonempty (fr ++ v)) eqn:Ev; cbn [fst snd]; [reflexivity|].
     cbn [u_abspath_cache]. destruct (nonempty v) eqn:Ev2; cbn [fst snd u_front]; [reflexivity|].
     unfold uri_path; cbn [u_path u_httpx]. reflexivity.
@@ -398,12 +398,12 @@ Proof.
   - destruct (nonempty (fr ++ cp)) eqn:Ev; cbn [fst snd]; [reflexivity|].
     cbn [u_abspath_cache]. rewrite Ep. cbn [fst snd u_front u_httpx u_urn u_path u_abspath_cache].
     apply nonempty_false in Ev. now rewrite Ev.
-  - set (v := uri_encode pg_PathChars (uri_path (mkUri fr hx urn p ca cp))).
+  - set (v := uri_encode pg_AbsPathChars (uri_path (mkUri fr hx urn p ca cp))).
     destruct (nonempty (fr ++ v)) eqn:Ev; cbn [fst snd]; [reflexivity|].
     cbn [u_abspath_cache]. apply nonempty_false in Ev.
     destruct (nonempty v) eqn:Ev2; cbn [fst snd u_front u_httpx u_urn u_path u_abspath_cache].
     + now rewrite Ev.
-    + assert (Hv : uri_encode pg_PathChars (if negb (nonempty p) && hx then pg_SlashPath else p) = v) by reflexivity.
+    + assert (Hv : uri_encode pg_AbsPathChars (if negb (nonempty p) && hx then pg_SlashPath else p) = v) by reflexivity.
       unfold uri_path; cbn [u_path u_httpx]. rewrite Hv.
       apply nonempty_false in Ev2. rewrite Ev2 in *. now rewrite Ev.
 Qed.
@@ -458,19 +458,19 @@ Proof.
   - rewrite tbl_get_beyond; [reflexivity|]. replace (lenN pg_encoded_tbl) with 256 by (vm_compute; reflexivity). exact Hc.
 Qed.
 
-Lemma uri_encode_no_nul (l : bytes) : no_nul (uri_encode pg_PathChars l) = true.
+Lemma uri_encode_no_nul (l : bytes) : no_nul (uri_encode pg_AbsPathChars l) = true.
 Proof.
   induction l as [|c l IH]; cbn [uri_encode]; [reflexivity|].
-  destruct (pg_PathChars c) eqn:E.
+  destruct (pg_AbsPathChars c) eqn:E.
   - unfold no_nul, no_byte in *. cbn [forallb]. rewrite IH, andb_true_r.
     destruct (c =? 0) eqn:E0; [|reflexivity]. apply N.eqb_eq in E0; subst c. vm_compute in E. discriminate.
   - unfold no_nul in *. rewrite no_byte_app. fold (no_nul (tbl_get [] pg_encoded_tbl c)). now rewrite encoded_no_nul, IH.
 Qed.
 
-Lemma uri_encode_head_slash (l : bytes) : hd0 l = SLASH -> exists p, uri_encode pg_PathChars l = SLASH :: p.
+Lemma uri_encode_head_slash (l : bytes) : hd0 l = SLASH -> exists p, uri_encode pg_AbsPathChars l = SLASH :: p.
 Proof.
   destruct l as [|c l]; cbn [hd0]; [discriminate|]. intros ->. cbn [uri_encode].
-  replace (pg_PathChars SLASH) with true by (vm_compute; reflexivity). now eexists.
+  replace (pg_AbsPathChars SLASH) with true by (vm_compute; reflexivity). now eexists.
 Qed.
 
 (* ------------------------------------------------------------------ well-formed forward-proxy requests *)
@@ -496,7 +496,7 @@ Lemma wf_effective_uri (rq : request) (s a : bytes) :
   wf_request rq s a -> (rq_method rq =? pg_METHOD_CONNECT) = false ->
   exists p, fst (effective_request_uri rq) = s ++ SEP ++ a ++ SLASH :: p /\
             request_uri rq = s ++ SEP ++ a ++ SLASH :: p /\
-            uri_encode pg_PathChars (uri_path (rq_url rq)) = SLASH :: p /\
+            uri_encode pg_AbsPathChars (uri_path (rq_url rq)) = SLASH :: p /\
             u_abs_cache (rq_url (snd (effective_request_uri rq))) = s ++ SEP ++ a ++ SLASH :: p /\
             u_urn (rq_url (snd (effective_request_uri rq))) = false /\
             u_front (rq_url (snd (effective_request_uri rq))) = s ++ SEP ++ a.
@@ -561,7 +561,7 @@ Qed.
 Lemma header_absolute_path (rq : request) (reqUrl p : bytes) (m : N) :
   (rq_method rq =? pg_METHOD_CONNECT) = false -> u_urn (rq_url rq) = false -> no_nul (SLASH :: p) = true ->
   In m (cacheable_ids pg_methods) ->
-  In (m, u_front (rq_url rq) ++ uri_encode pg_PathChars (SLASH :: p)) (purge_entries_by_header rq reqUrl (Some (SLASH :: p))).
+  In (m, u_front (rq_url rq) ++ uri_encode pg_AbsPathChars (SLASH :: p)) (purge_entries_by_header rq reqUrl (Some (SLASH :: p))).
 Proof.
   intros Hm Hu Hnul Hin. unfold purge_entries_by_header. rewrite (cstr_id _ Hnul).
   cbn [url_is_relative hd0]. rewrite N.eqb_refl, Hm, Hu.
@@ -574,13 +574,13 @@ Lemma location_absolute_path_evicted (rq : request) (rp : reply) (s a p : bytes)
   no_nul (SLASH :: p) = true ->
   rp_location rp = Some (SLASH :: p) \/ rp_content_location rp = Some (SLASH :: p) ->
   In m (cacheable_ids pg_methods) ->
-  In (m, s ++ SEP ++ a ++ uri_encode pg_PathChars (SLASH :: p)) (evicted_keys rq rp).
+  In (m, s ++ SEP ++ a ++ uri_encode pg_AbsPathChars (SLASH :: p)) (evicted_keys rq rp).
 Proof.
   intros W Hp Hs Hnul Hhdr Hm.
   pose proof (purging_method_not_connect _ Hp) as Hnc.
   destruct (wf_effective_uri rq s a W Hnc) as (p0 & _ & _ & _ & _ & Hurn & Hfront).
-  replace (s ++ SEP ++ a ++ uri_encode pg_PathChars (SLASH :: p))
-    with (u_front (rq_url (snd (effective_request_uri rq))) ++ uri_encode pg_PathChars (SLASH :: p))
+  replace (s ++ SEP ++ a ++ uri_encode pg_AbsPathChars (SLASH :: p))
+    with (u_front (rq_url (snd (effective_request_uri rq))) ++ uri_encode pg_AbsPathChars (SLASH :: p))
     by (rewrite Hfront; now rewrite <- !app_assoc).
   destruct Hhdr as [Hl|Hl]; [apply evicted_by_location| apply evicted_by_content_location]; try assumption;
     rewrite Hl; apply header_absolute_path; try assumption; now rewrite eru_method.
@@ -620,7 +620,7 @@ Lemma header_relative_path (rq : request) (reqUrl d seg h : bytes) (m : N) :
   url_is_relative h = true -> (hd0 h =? SLASH) = false ->
   u_path (rq_url rq) = d ++ SLASH :: seg -> no_byte SLASH seg = true ->
   In m (cacheable_ids pg_methods) ->
-  In (m, u_front (rq_url rq) ++ uri_encode pg_PathChars (d ++ SLASH :: h)) (purge_entries_by_header rq reqUrl (Some h)).
+  In (m, u_front (rq_url rq) ++ uri_encode pg_AbsPathChars (d ++ SLASH :: h)) (purge_entries_by_header rq reqUrl (Some h)).
 Proof.
   intros Hm Hu Hnul Hrel Hsl Hp Hseg Hin. unfold purge_entries_by_header. rewrite (cstr_id _ Hnul), Hrel, Hm, Hu, Hsl.
   unfold uri_add_relative_path. rewrite Hu, Hp, (upto_last_slash_spec d seg Hseg).
@@ -643,13 +643,13 @@ Lemma location_relative_path_evicted (rq : request) (rp : reply) (s a d seg h : 
   u_path (rq_url rq) = d ++ SLASH :: seg -> no_byte SLASH seg = true ->
   rp_location rp = Some h \/ rp_content_location rp = Some h ->
   In m (cacheable_ids pg_methods) ->
-  In (m, s ++ SEP ++ a ++ uri_encode pg_PathChars (d ++ SLASH :: h)) (evicted_keys rq rp).
+  In (m, s ++ SEP ++ a ++ uri_encode pg_AbsPathChars (d ++ SLASH :: h)) (evicted_keys rq rp).
 Proof.
   intros W Hp Hs Hnul Hrel Hsl Hpath Hseg Hhdr Hm.
   pose proof (purging_method_not_connect _ Hp) as Hnc.
   destruct (wf_effective_uri rq s a W Hnc) as (p0 & _ & _ & _ & _ & Hurn & Hfront).
-  replace (s ++ SEP ++ a ++ uri_encode pg_PathChars (d ++ SLASH :: h))
-    with (u_front (rq_url (snd (effective_request_uri rq))) ++ uri_encode pg_PathChars (d ++ SLASH :: h))
+  replace (s ++ SEP ++ a ++ uri_encode pg_AbsPathChars (d ++ SLASH :: h))
+    with (u_front (rq_url (snd (effective_request_uri rq))) ++ uri_encode pg_AbsPathChars (d ++ SLASH :: h))
     by (rewrite Hfront; now rewrite <- !app_assoc).
   destruct Hhdr as [Hl|Hl]; [apply evicted_by_location| apply evicted_by_content_location]; try assumption;
     rewrite Hl; apply (header_relative_path _ _ d seg); try assumption;
@@ -828,7 +828,7 @@ Proof. repeat split; vm_compute; reflexivity. Qed.
 
 (* ------------------------------------------------------------------ the spec agrees with the code on references in
    normal form (nothing for remove_dot_segments / fragment stripping / case folding to do) *)
-Lemma pathchars_no_nul (l : bytes) : forallb pg_PathChars l = true -> no_nul l = true.
+Lemma pathchars_no_nul (l : bytes) : forallb pg_AbsPathChars l = true -> no_nul l = true.
 Proof.
   unfold no_nul, no_byte. induction l as [|c l IH]; cbn [forallb]; [reflexivity|]. intros H.
   apply andb_true_iff in H as [H1 H2]. rewrite (IH H2), andb_true_r.
@@ -838,7 +838,7 @@ Qed.
 Lemma absolute_path_reference_in_normal_form (rq : request) (rp : reply) (s a p : bytes) (m : N) :
   wf_request rq s a -> purges_others (rq_method rq) = true -> rp_status rp < 400 ->
   (hd0 p =? SLASH) = false -> strip_fragment (SLASH :: p) = SLASH :: p -> remove_dot_segments (SLASH :: p) = SLASH :: p ->
-  forallb pg_PathChars (SLASH :: p) = true ->
+  forallb pg_AbsPathChars (SLASH :: p) = true ->
   rp_location rp = Some (SLASH :: p) \/ rp_content_location rp = Some (SLASH :: p) ->
   In m (cacheable_ids pg_methods) ->
   names_same_authority s a (uri_path (rq_url rq)) (SLASH :: p) (s ++ SEP ++ a ++ SLASH :: p) /\
@@ -850,7 +850,7 @@ Proof.
     assert (H2 : starts2 (SLASH :: p) = None).
     { destruct p as [|c p']; cbn [starts2]; [reflexivity|]. cbn [hd0] in Hp2. now rewrite Hp2, andb_false_r. }
     rewrite H2, Hdots. reflexivity.
-  - rewrite <- (uri_encode_id pg_PathChars (SLASH :: p) Hchars).
+  - rewrite <- (uri_encode_id pg_AbsPathChars (SLASH :: p) Hchars).
     apply location_absolute_path_evicted; try assumption. now apply pathchars_no_nul.
 Qed.
 
@@ -917,7 +917,7 @@ Lemma relative_path_reference_in_normal_form (rq : request) (rp : reply) (s a d 
   u_path (rq_url rq) = d ++ SLASH :: seg -> no_byte SLASH seg = true ->
   h <> [] -> (hd0 h =? SLASH) = false -> url_is_relative h = true ->
   strip_fragment h = h -> remove_dot_segments (d ++ SLASH :: h) = d ++ SLASH :: h ->
-  forallb pg_PathChars (d ++ SLASH :: h) = true ->
+  forallb pg_AbsPathChars (d ++ SLASH :: h) = true ->
   rp_location rp = Some h \/ rp_content_location rp = Some h ->
   In m (cacheable_ids pg_methods) ->
   names_same_authority s a (uri_path (rq_url rq)) h (s ++ SEP ++ a ++ d ++ SLASH :: h) /\
@@ -941,13 +941,13 @@ Proof.
     destruct (d ++ [SLASH]) eqn:Ed; [destruct d; discriminate|]. rewrite <- Ed.
     replace ((d ++ [SLASH]) ++ x :: h') with (d ++ SLASH :: x :: h') by (now rewrite <- app_assoc).
     now rewrite Hdots.
-  - rewrite <- (uri_encode_id pg_PathChars (d ++ SLASH :: h) Hchars).
+  - rewrite <- (uri_encode_id pg_AbsPathChars (d ++ SLASH :: h) Hchars).
     apply (location_relative_path_evicted rq rp s a d seg); assumption.
 Qed.
 
 Lemma normal_form_examples :
   strip_fragment (B [47;100;47;118]) = B [47;100;47;118] /\ remove_dot_segments (B [47;100;47;118]) = B [47;100;47;118] /\
-  forallb pg_PathChars (B [47;100;47;118]) = true /\ map lower w_http = w_http /\ map lower w_auth = w_auth /\
+  forallb pg_AbsPathChars (B [47;100;47;118]) = true /\ map lower w_http = w_http /\ map lower w_auth = w_auth /\
   u_path (rq_url w_rq) = B [47;100] ++ SLASH :: B [117] /\ url_is_relative (B [118]) = true /\ strip_fragment (B [118]) = B [118].
 Proof. repeat split; vm_compute; reflexivity. Qed.
 
@@ -956,3 +956,12 @@ Lemma method_token_examples :
   method_of_image false [112;117;116] = pg_METHOD_OTHER /\ method_of_image true [80;65;84;67;72] = pg_METHOD_OTHER /\
   purges_others (method_of_image true [79;80;84;73;79;78;83]) = false.
 Proof. vm_compute. repeat split. Qed.
+
+(* the set absolutePath() leaves verbatim is PathChars plus the query delimiter '?' (path_ holds path and query) *)
+Lemma abs_path_chars_spec (c : N) : c < 256 -> pg_AbsPathChars c = pg_PathChars c || (c =? 63).
+Proof.
+  intros Hc.
+  assert (H : forall c, c < 256 -> (fun c => Bool.eqb (pg_AbsPathChars c) (pg_PathChars c || (c =? 63))) c = true)
+    by (apply forallb_bytes; vm_compute; reflexivity).
+  specialize (H c Hc). cbn beta in H. now apply Bool.eqb_prop in H.
+Qed.
